@@ -81,7 +81,7 @@ def main():
             names = " ".join(extra.keys()) if extra else ""
             flt = meta.get("demo_filter") or ""
             rc, out = sh(f"cargo test --offline --no-fail-fast {flt} 2>&1" if flt else
-                         "cargo test --offline --no-fail-fast " + " ".join(n.split("::")[-1] for n in extra) + " 2>&1", cwd=wt)
+                         "cargo test --offline --no-fail-fast -- " + " ".join(n.split("::")[-1] for n in extra) + " 2>&1", cwd=wt)
             t2 = parse_tests(out)
             ex2 = {k: v for k, v in t2.items() if k in extra}
             res["demo_tests_without_patch"] = ex2
